@@ -363,4 +363,14 @@ def main():
 
 
 if __name__ == "__main__":
-    sys.exit(main())
+    try:
+        rc = main()
+    except SystemExit:
+        raise
+    except BaseException:
+        # a bug in the driver is an infrastructure problem, never a verdict
+        import traceback
+        traceback.print_exc()
+        print("INFRA: the check driver failed")
+        rc = 2
+    sys.exit(rc)
